@@ -1,5 +1,96 @@
-"""placeholder: self-validation bank (thorough tier)"""
+"""Self-validation bank (thorough tier): the rules of a property are re-run, in-process, on scratch copies of the
+CURRENT tree with (a) each seeded breaking change that is recorded as detectable by this property applied -> some rule
+must fire; (b) each behaviour-preserving variant applied -> no rule may fire.  A bank failure means the checker, not
+the repository, is broken (ANALYSIS-ERROR).  Scratch copies live under a fresh mkdtemp outside /repo and /verif and are
+removed on exit."""
+from __future__ import annotations
+
+import json
+import os
+import shutil
+import subprocess
+import tempfile
+from concurrent.futures import ProcessPoolExecutor
+from pathlib import Path
+from typing import Dict, List, Tuple
+
+from .model import AnalysisError
+from .report import VERIF
 
 
-def run_bank(pid, rules, ctx):
-    return {'variants': 0, 'note': 'bank not built yet'}
+def _copy(repo: str, dst: str):
+    shutil.copytree(repo, dst, ignore=shutil.ignore_patterns('.git', '.hypothesis', '__pycache__', '*.egg-info', 'docs', 'tests'))
+
+
+def _run_rules(repo: str, rules: List[str]) -> Tuple[List[str], List[str]]:
+    from .ctx import Ctx
+    from .driver import registry
+    ctx = Ctx(repo, 'quick')
+    reg = registry()
+    fired: List[str] = []
+    errors: List[str] = []
+    for rid in rules:
+        try:
+            res = reg[rid](ctx)
+            fired.extend(f'{rid} {f.construct}' for f in res.findings)
+        except AnalysisError as e:
+            errors.append(f'{rid}: {e.reason}')
+    return fired, errors
+
+
+def _job(args) -> Dict:
+    kind, name, repo, rules, known = args
+    d = tempfile.mkdtemp(prefix='hplsa_bank_')
+    try:
+        dst = os.path.join(d, 'repo')
+        _copy(repo, dst)
+        if kind == 'seeded':
+            r = subprocess.run(['git', 'apply', '--unsafe-paths', '--directory', dst, str(VERIF / 'seeded' / name / 'patch.diff')], capture_output=True, text=True, cwd='/')
+            if r.returncode != 0:
+                return {'kind': kind, 'name': name, 'status': 'inapplicable'}
+        else:
+            from .variants import VARIANTS
+            try:
+                VARIANTS[name](os.path.join(dst, 'src', 'hpl'))
+            except AssertionError:
+                return {'kind': kind, 'name': name, 'status': 'inapplicable'}
+        fired, errors = _run_rules(dst, rules)
+        fired = [f for f in fired if f not in known]
+        return {'kind': kind, 'name': name, 'status': 'done', 'fired': fired, 'errors': errors}
+    finally:
+        shutil.rmtree(d, ignore_errors=True)
+
+
+def run_bank(pid: str, rules: List[str], ctx) -> Dict:
+    from .report import load_known
+    from .variants import VARIANTS
+    expect_file = VERIF / 'seeded' / 'MATRIX.json'
+    matrix = json.loads(expect_file.read_text()) if expect_file.exists() else {}
+    seeded = sorted(s for s, res in matrix.items() if pid in res and not str(res[pid][0]).startswith('EXIT'))
+    known = {f'{k["rule"]} {k["construct"]}' for k in load_known().get('findings', []) if k['property'] == pid}
+    # rule instances that already fail on the current tree are not attributed to a variant
+    base_fired, base_err = _run_rules(ctx.repo, rules)
+    known |= set(base_fired)
+    jobs = [('seeded', s, ctx.repo, rules, known) for s in seeded] + [('variant', v, ctx.repo, rules, known) for v in VARIANTS]
+    with ProcessPoolExecutor(max_workers=min(16, max(1, len(jobs)))) as ex:
+        results = list(ex.map(_job, jobs))
+    bad: List[str] = []
+    n_fire = n_silent = n_skip = 0
+    for res in results:
+        if res['status'] == 'inapplicable':
+            n_skip += 1
+            continue
+        if res['kind'] == 'seeded':
+            if res['fired']:
+                n_fire += 1
+            else:
+                bad.append(f'seeded change {res["name"]} is no longer detected by the rules of {pid}' + (f' (errors: {res["errors"]})' if res['errors'] else ''))
+        else:
+            if res['fired'] or res['errors']:
+                bad.append(f'behaviour-preserving variant {res["name"]} raises an alarm: {(res["fired"] + res["errors"])[:2]}')
+            else:
+                n_silent += 1
+    if bad:
+        raise AnalysisError('SELFTEST', '; '.join(bad[:3]))
+    return {'must_fire': n_fire, 'must_stay_silent': n_silent, 'inapplicable_on_current_tree': n_skip,
+            'seeded': seeded, 'variants': list(VARIANTS)}
